@@ -51,6 +51,11 @@ theorem C11_tie_callsites :
     Gen.calls_SaveOperatorData = ["getOperatorData", "Set", "Using"] ∧
     Gen.calls_sharesGet = [] ∧ Gen.calls_sharesSave = ["SetMany", "Using"] := by decide
 
+/-- storage layer the model takes for granted (also exercised dynamically: the harness runs the real SetMany): a batch
+    write stores every item under ITS OWN key (`append(prefix, item.Key...)` per item), through the transaction and
+    directly -/
+theorem C11_tie_storage_batch : Gen.has_txn_SetMany = [true] ∧ Gen.has_db_SetMany = [true] := by decide
+
 /-! ## batching independence -/
 
 /-- the full claim: the final state depends only on the flattened event list and the last block number -/
